@@ -1,4 +1,4 @@
-(* Props/C15Known.v - no flag of Actual/DispatchActual.v is a listed defect any more.
+(* Props/C15Known.v - refutation for the listed defect q_name_exemption_ext_case and regression for the repaired one.
    q_shebang_any_ext was repaired by fix 2639201 (the shebang fallback applies to extensionless files only); its old
    witness is kept as a regression: under the claimed (faithful) vector it now meets the specification.
    The same input is in corpus/C15 and is replayed on the implementation on every run. *)
@@ -19,4 +19,19 @@ Proof. vm_compute. repeat split; reflexivity. Qed.
 (* the extensionless script keeps being analysed as Python *)
 Example C15_shebang_extensionless_regression :
   run_cmd dispatch_actual "nesting" [] w_tab (mk_file "script" "#!/usr/bin/env python" true true) = Ok [("nesting.excessive-depth", 1)].
+Proof. vm_compute. reflexivity. Qed.
+
+(* test_mod.PY is analysed as Python, but the method-property test-file exemption (`test_*.py`) does not recognise it:
+   the findings that test_mod.py is spared (canonical reference: none) are reported (raw reference: tag 7) *)
+Definition w_exempt_tab : atab :=
+  [(("raw:method-property.should-be-property", "python"), [("method-property.should-be-property", 7)]);
+   (("nesting.excessive-depth", "python"), [("nesting.excessive-depth", 1)])].
+Definition w_test_upper : file := mk_file "test_mod.PY" "import os" true true.
+Theorem C15_name_exemption_ext_case_refuted :
+  atab_good w_exempt_tab = true /\ cfg_clean [] = true /\
+  run_cmd dispatch_actual "method-property" [] w_exempt_tab w_test_upper
+    <> Ok (spec_out "method-property" w_exempt_tab w_test_upper).
+Proof. vm_compute. repeat split; discriminate. Qed.
+Example C15_name_exemption_lowercase_ok :
+  run_cmd dispatch_actual "method-property" [] w_exempt_tab (mk_file "test_mod.py" "import os" true true) = Ok [].
 Proof. vm_compute. reflexivity. Qed.
